@@ -137,10 +137,14 @@ where
                 if !ctx.tier.thorough() && (m0.abs() == 1e3) != (m1.abs() == 1e3) && *m0 != 0.0 && *m1 != 0.0 {
                     continue;
                 }
-                for u in us {
+                // batches of 1, 2 and 3 chains (single-chain samplers take their own code paths in some designs)
+                let batches: Vec<Vec<usize>> = if ctx.tier.thorough() { vec![vec![0, 1], vec![0], vec![1], vec![0, 1, 0]] } else { vec![vec![0, 1], vec![0], vec![1]] };
+                for (u, batch) in us.iter().flat_map(|u| batches.iter().map(move |b| (*u, b))) {
+                    let all_starts = starts;
+                    let starts: Vec<Vec<f64>> = batch.iter().map(|k| all_starts[*k].clone()).collect();
                     let n = starts.len();
                     let m: Vec<Vec<f64>> = (0..n).map(|i| if i % 2 == 0 { vec![*m0, *m1] } else { vec![*m1, -*m0] }).collect();
-                    let case = json!({"sampler": "HMC", "backend": name, "target": rt.kind, "eps": jf(eps), "L": l, "momentum": m, "u": u});
+                    let case = json!({"sampler": "HMC", "backend": name, "target": rt.kind, "eps": jf(eps), "L": l, "momentum": m, "u": u, "starts": starts});
                     let mut s = HMC::<T, B, AnyTarget<T>>::new(target.clone(), starts.iter().map(|r| r.iter().map(|x| f(*x)).collect()).collect(), f(eps), l).set_seed(1);
                     ctx.evals(1);
                     // two consecutive steps (the second one starts from whatever the first left behind)
@@ -417,7 +421,7 @@ where
 }
 
 pub fn run(ctx: &Ctx) {
-    ctx.rule("invariant checked after EVERY transition of every explored execution: the new state is bit-identical to the previous one, or has finite coordinates and a finite log-density under the harness's own copy of the target. MH: 5 bounded-support / NaN-region targets x 12 starts x 17 scripted candidates (outside the support, on the boundary, +-inf, NaN, 1e308) x symmetric/asymmetric proposal x u in {1, 2 grid units, 1/2, 1-ulp}; HMC: targets {ln x, sqrt-domain, box, quartic, Student-t} x step sizes {0.1,1,10,1e10,1e30,MAX} x L {1,3} x momenta grid incl. +-1e3 x u {1e-30,1/2,1-ulp}, two consecutive steps, f32 and f64 backends; NUTS: E1 choice exploration (as C03) on {ln x, sqrt-domain, box, quartic, funnel} with step sizes up to overflow, deviation bound 1-3, plus whole runs (step-size search included) from starts next to the support boundary, plus the step-size search alone under EVERY initial momentum of {+-0.3,+-1.5,+-3}^d (thorough: 10 values incl. +-1e3) forced through the hook, non-termination caught by an evaluation budget inside the harness targets. states = distinct configurations; transitions = real transitions executed");
+    ctx.rule("invariant checked after EVERY transition of every explored execution: the new state is bit-identical to the previous one, or has finite coordinates and a finite log-density under the harness's own copy of the target. MH: 5 bounded-support / NaN-region targets x 12 starts x 17 scripted candidates (outside the support, on the boundary, +-inf, NaN, 1e308) x symmetric/asymmetric proposal x u in {1, 2 grid units, 1/2, 1-ulp}; HMC: targets {ln x, sqrt-domain, box, quartic, Student-t} x step sizes {0.1,1,10,1e10,1e30,MAX} x L {1,3} x momenta grid incl. +-1e3 x u {1e-30,1/2,1-ulp} x batches of 1, 2 (and 3) chains, two consecutive steps, f32 and f64 backends; NUTS: E1 choice exploration (as C03) on {ln x, sqrt-domain, box, quartic, funnel} with step sizes up to overflow, deviation bound 1-3, plus whole runs (step-size search included) from starts next to the support boundary, plus the step-size search alone under EVERY initial momentum of {+-0.3,+-1.5,+-3}^d (thorough: 10 values incl. +-1e3) forced through the hook, non-termination caught by an evaluation budget inside the harness targets. states = distinct configurations; transitions = real transitions executed");
     mh_part(ctx);
     hmc_part::<f64, BF64>(ctx, "f64 / NdArray<f64>", false);
     hmc_part::<f32, BF32>(ctx, "f32 / NdArray<f32>", true);
